@@ -21,7 +21,7 @@ INVS = ['WindowIsRecent', 'StoredOnlyParticipants']
 TOG = dict(SlideOldest=True, StoreParticipantsOnly=True, SkipEmptyClusters=True, EvalReadOnly=True)
 
 
-def history(ctx, fedjax, rng, nrounds, window, nclusters, allow_empty_domain, backend=None):
+def history(ctx, fedjax, rng, nrounds, window, nclusters, allow_empty_domain, backend=None, init_weights=None):
   """Runs the three real algorithms on one random population and cohort sequence; returns the trace (or a finding)."""
   import jax  # pylint: disable=g-import-not-at-top
   ncl = rng.randint(3, 5)
@@ -47,11 +47,12 @@ def history(ctx, fedjax, rng, nrounds, window, nclusters, allow_empty_domain, ba
     dlr = rng.choice([0.125, 0.5])
     init_style = ('arrays', 'lists', 'default')[(nrounds + ncl + window) % 3]
     try:
-      agn, agn_init, _ = algs.build(fedjax, 'agnostic_fed_avg', case, window=window, domain_lr=dlr, init_window=[1.0, 1.0], init_style=init_style)
+      agn, agn_init, _ = algs.build(fedjax, 'agnostic_fed_avg', case, window=window, domain_lr=dlr, init_window=[1.0, 1.0], init_style=init_style,
+                                    domain_weights=init_weights or [0.5, 0.5])
     except Exception as ex:  # pylint: disable=broad-except
       ctx.violation('agnostic-cannot-be-built-with-list-weights-or-default-window', f'agnostic_federated_averaging(init_domain_weights=[0.5, 0.5] as {init_style}) raises '
                     f'{type(ex).__name__}: {str(ex)[:160]}', replay={'init_style': init_style, 'window': window})
-      agn, agn_init, _ = algs.build(fedjax, 'agnostic_fed_avg', case, window=window, domain_lr=dlr, init_window=[1.0, 1.0])
+      agn, agn_init, _ = algs.build(fedjax, 'agnostic_fed_avg', case, window=window, domain_lr=dlr, init_window=[1.0, 1.0], domain_weights=init_weights or [0.5, 0.5])
     apfl, apfl_init, _ = algs.build(fedjax, 'apfl', case, coef=rng.choice([0.0, 0.5, 1.0]), copt=fedjax.optimizers.sgd(rng.choice([0.25, 1.0, 4.0])))
     # (a server optimizer with a step counter: an applied update is visible in the state even when the mean delta is zero)
     hyp_reg = 0.5 if allow_empty_domain else 0.0       # every second history: an L2 regulariser, part of "average loss"
@@ -168,7 +169,10 @@ def run(ctx):
   # ---- leg T: real histories
   trs = []
   for i in range(40 if big else 10):
-    t = history(ctx, fedjax, rng, rng.randint(4, 8 if big else 6), rng.choice([1, 2, 3]), rng.choice([1, 2, 3]), allow_empty_domain=(i % 2 == 1), backend=(None, 'pmap', 'debug')[i % 3])
+    # every fourth history: domain 0 starts with weight 0 (and keeps it); the single-domain clients of these histories hold
+    # domain 0 only, so cohorts made of them have scaling weight 0 throughout - their examples still enter the window
+    t = history(ctx, fedjax, rng, rng.randint(4, 8 if big else 6), rng.choice([1, 2, 3]), rng.choice([1, 2, 3]), allow_empty_domain=(i % 2 == 1), backend=(None, 'pmap', 'debug')[i % 3],
+                init_weights=[0.0, 1.0] if i % 4 == 3 else None)
     trs.append(t)
     ctx.case(key=('hist', i), nontrivial=any(0 in e.get('counts', [1]) or len(e.get('changed', [])) < t['consts'][3] for e in t['events']))
   groups = {}
